@@ -69,9 +69,13 @@ class clock_jump(object):
 
         def reduce_heap(h):
             state = dict(h.__getstate__())
-            if "heap_entries" in state:
-                state["heap_entries"] = [(q + shift, r, handler, counter)
-                                         for q, r, handler, counter in state["heap_entries"]]
+            entries = state.get("heap_entries")
+            # the layout of the current tree: (quotient, remainder, handler, counter) with plain floats; any other
+            # layout is left alone (Time objects inside it are shifted by the reducer above)
+            if isinstance(entries, (list, tuple)) and all(
+                    isinstance(e, (list, tuple)) and len(e) == 4 and isinstance(e[0], float)
+                    and isinstance(e[1], float) for e in entries):
+                state["heap_entries"] = [(q + shift, r, handler, counter) for q, r, handler, counter in entries]
             return (_rebuild, (type(h), state))
 
         self.saved = {cls: copyreg.dispatch_table.get(cls) for cls in (Time, HeapScheduler)}
